@@ -6,6 +6,7 @@ from sympy.physics.units.prefixes import Prefix
 from sympy.physics.units.systems.si import dimsys_SI
 
 from .miscellaneous import is_any_dimension, is_number, dimensionless
+from .. import verif_hooks as _verif_hooks
 
 
 def _collect_quantity(expr: SymQuantity) -> tuple[Expr, Dimension]:
@@ -143,6 +144,7 @@ _cases: dict[type, Callable[[Expr], tuple[Expr, Dimension]]] = {
 }
 
 
+@_verif_hooks.traced("collect_quantity")
 def collect_quantity_factor_and_dimension(expr: SupportsFloat) -> tuple[Expr, Dimension]:
     """
     Returns tuple with scale factor expression and dimension expression. Designed to be
